@@ -3,7 +3,10 @@
 
 use simple_sds::bit_vector::BitVector;
 use simple_sds::int_vector::{IntVector, IntVectorWriter};
-use simple_sds::ops::{Vector, Access, VectorIndex, BitVec, Select, SelectZero, PredSucc, Push};
+use simple_sds::ops::{Vector, Access, VectorIndex, BitVec, Select, SelectZero, PredSucc, Push, Pop};
+use simple_sds::raw_vector::{RawVector, AccessRaw, PushRaw, PopRaw};
+use simple_sds::serialize::{MemoryMap, MemoryMapped, MappingMode, Serialize};
+use simple_sds::int_vector::IntVectorMapper;
 use simple_sds::rl_vector::{RLVector, RLBuilder};
 use simple_sds::sparse_vector::{SparseVector, SparseBuilder};
 use simple_sds::wavelet_matrix::WaveletMatrix;
@@ -21,6 +24,7 @@ pub fn run(ctx: &mut Ctx) {
     if part.is_empty() || part == "nth" { nth_extremes(ctx); }
     if part.is_empty() || part == "wm" { wavelet(ctx); }
     if part.is_empty() || part == "ctor" { constructors(ctx); }
+    if part.is_empty() || part == "vec" { plain_vectors(ctx); }
 }
 
 pub fn extreme_args(len: usize) -> Vec<usize> {
@@ -441,4 +445,95 @@ fn constructors(ctx: &mut Ctx) {
         ctx.case(hash64(&[6, *s as u64, *l as u64, prefix.len() as u64]), true);
     }
     let _ = (BitVector::from(simple_sds::raw_vector::RawVector::new()), None::<SparseVector>, None::<RLVector>);
+}
+
+//-----------------------------------------------------------------------------
+
+// Indices whose product with the item width wraps around 2^64 (to 0, to a small value, to just below 2^64).
+fn wrapping_indices(width: usize) -> Vec<usize> {
+    let w = width as u128;
+    let q = (((1u128 << 64) + w - 1) / w) as usize; // the first index with index * width >= 2^64
+    let mut v = vec![q.wrapping_sub(1), q, q.wrapping_add(1), q.wrapping_add(2), q.wrapping_mul(2), q.wrapping_mul(2).wrapping_add(1), usize::MAX / width, (usize::MAX / width).wrapping_add(1),
+        1usize << 58, 1usize << 60, 1usize << 62, 3usize << 62, (1usize << 63) + (1usize << 58), usize::MAX - width, usize::MAX / 2 + 1];
+    v.sort_unstable();
+    v.dedup();
+    v
+}
+
+// The answers the plain vectors define for arguments outside the vector: `get_or` returns the default for every invalid
+// index (vector, memory-mapped vector), popping from an empty vector (or more bits than there are) returns None and
+// changes nothing, and the item iterators behave like every other iterator for skips beyond the remainder.
+fn plain_vectors(ctx: &mut Ctx) {
+    let mut rng = Rng::new(ctx.seed ^ 0xC9_3);
+    let mut case_no = 0u64;
+    for width in 1..=64usize {
+        for &len in &[0usize, 1, 2, 3, 64, 65, 130] {
+            case_no += 1;
+            let len = if len == 130 { 66 + rng.below(if cfg!(miri) { 30 } else { 400 }) } else { len };
+            let values: Vec<u64> = (0..len).map(|_| { let v = rng.next_u64(); if width == 64 { v } else { v & ((1u64 << width) - 1) } }).collect();
+            if !ctx.mine(case_no) { continue; }
+            if !ctx.begin_case() { continue; }
+            let desc = || format!("IntVector(width {}, len {})", width, len);
+            let mut iv = match guard(|| { let mut x = IntVector::new(width).unwrap(); for &v in values.iter() { x.push(v); } x }) { Ok(x) => x, Err(e) => { ctx.violation("vec.int.construct", format!("{}: {}", desc(), e)); continue; } };
+            let mut idx = extreme_args(len);
+            idx.extend(wrapping_indices(width));
+            idx.sort_unstable(); idx.dedup();
+            let default = 0xD0D0_D0D0_D0D0_D0D0u64;
+            for &i in idx.iter() {
+                let cls = crate::util::arg_class(i, len);
+                let want = if i < len { values[i] } else { default };
+                ctx.expect_eq(&format!("vec.int.get_or.{}", cls), || format!("get_or({}, default) on {}", i, desc()), &guard(|| iv.get_or(i, default)), &want);
+            }
+            // Iterators over the items: skips beyond the remainder.
+            for &k in &[len, len.saturating_add(1), 1usize << 63, usize::MAX - 1, usize::MAX] {
+                ctx.expect_eq("vec.int.iter.nth", || format!("iter().nth({}) then len() on {}", k, desc()), &guard(|| { let mut it = iv.iter(); let r = it.nth(k); (r, it.len(), it.next()) }), &(None, 0, None));
+                ctx.expect_eq("vec.int.iter.nth_back", || format!("iter().nth_back({}) then len() on {}", k, desc()), &guard(|| { let mut it = iv.iter(); let r = it.nth_back(k); (r, it.len(), it.next_back()) }), &(None, 0, None));
+                ctx.expect_eq("vec.int.into_iter.nth", || format!("into_iter().nth({}) on {}", k, desc()), &guard(|| { let mut it = iv.clone().into_iter(); let r = it.nth(k); (r, it.next()) }), &(None, None));
+            }
+            // The same vector through a memory map.
+            if !cfg!(miri) {
+                let name = format!("{}/vmon-c09-vec-{}-{}-{}", ctx.tmpdir, std::process::id(), ctx.shard, case_no);
+                let pad = rng.below(3);
+                let ok = guard(|| { let mut f = std::fs::File::create(&name).unwrap(); for _ in 0..pad { 7u64.serialize(&mut f).unwrap(); } iv.serialize(&mut f).unwrap(); }).is_ok();
+                if ok {
+                    match guard(|| MemoryMap::new(&name, MappingMode::ReadOnly)) {
+                        Ok(Ok(map)) => {
+                            match guard(|| IntVectorMapper::new(&map, pad)) {
+                                Ok(Ok(mp)) => {
+                                    for &i in idx.iter() {
+                                        let cls = crate::util::arg_class(i, len);
+                                        let want = if i < len { values[i] } else { default };
+                                        ctx.expect_eq(&format!("vec.int_mapper.get_or.{}", cls), || format!("IntVectorMapper::get_or({}, default) on {} at offset {}", i, desc(), pad), &guard(|| mp.get_or(i, default)), &want);
+                                    }
+                                    for &k in &[len, len.saturating_add(1), 1usize << 63, usize::MAX] {
+                                        ctx.expect_eq("vec.int_mapper.iter.nth", || format!("IntVectorMapper::iter().nth({}) then len() on {}", k, desc()), &guard(|| { let mut it = mp.iter(); let r = it.nth(k); (r, it.len(), it.next()) }), &(None, 0, None));
+                                    }
+                                },
+                                other => ctx.violation("vec.int_mapper.new", format!("IntVectorMapper::new at offset {} of a file holding {}: {:?}", pad, desc(), other.map(|r| r.map(|_| ()).map_err(|e| e.to_string())))),
+                            }
+                        },
+                        other => ctx.inconclusive(format!("could not map {}: {:?}", name, other.map(|r| r.map(|_| ()).map_err(|e| e.to_string())))),
+                    }
+                }
+                let _ = std::fs::remove_file(&name);
+            }
+            // Popping more than there is.
+            let before = values.clone();
+            for _ in 0..len { let _ = guard(|| iv.pop()); }
+            ctx.expect_eq("vec.int.pop.empty", || format!("pop() on the emptied {}", desc()), &guard(|| (iv.pop(), iv.len(), iv.pop(), iv.is_empty())), &(None, 0, None, true));
+            // Raw vector: pop_int of more bits than there are, pop_bit on empty.
+            let bits = (len * width) % 67;
+            let mut raw = RawVector::new();
+            for j in 0..bits { raw.push_bit(before.get(j % std::cmp::max(1, len)).map(|v| v & 1 == 1).unwrap_or(j % 3 == 0)); }
+            let snapshot = raw.clone();
+            for w in [bits + 1, 64].iter().copied().filter(|w| *w > bits && *w <= 64) {
+                ctx.expect_eq("vec.raw.pop_int.too_many", || format!("pop_int({}) on a RawVector of {} bits, then the vector", w, bits), &guard(|| { let r = unsafe { raw.pop_int(w) }; (r, raw == snapshot) }), &(None, true));
+            }
+            if bits == 0 {
+                ctx.expect_eq("vec.raw.pop_bit.empty", || "pop_bit() on an empty RawVector".to_string(), &guard(|| (raw.pop_bit(), raw.len())), &(None, 0));
+            }
+            ctx.case(hash64(&[7, width as u64, len as u64, values.first().copied().unwrap_or(0)]), true);
+        }
+    }
+    ctx.sample(|| "vec: IntVector / IntVectorMapper get_or at extreme and product-wrapping indices, item iterators skipped beyond the end, pops on empty vectors, for every width 1..=64".to_string());
 }
